@@ -152,8 +152,7 @@ def run(ctx, chk):
                'age factor is %s (must be the full nanosecond duration, not whole seconds / clamped)' % fmt(a)[:120])
         if full_ns:
             dur = a[2][0]
-            zero = dur[0] == 'agg' and common.lin_time(dur) is not None and not common.lin_time(dur).terms \
-                and common.lin_time(dur).const == 0
+            zero = common.lin_time(dur) is not None and not common.lin_time(dur).terms and common.lin_time(dur).const == 0
             lt = common.lin_time(dur)
             is_age = lt is not None and mono is not None and lt.key() == common.Lin(m.age_unit(info)).key() and lt.const == 0
             lo, hi, _ = common.interval_of(info['atoms'], m.age_unit(info))
